@@ -99,7 +99,7 @@ class C01(CheckBase):
         return {'quick': {'runs': 250, 'wall': 80}, 'thorough': {'runs': 12000, 'wall': 1800}}[tier]
 
     def generate(self, rng, tier):
-        cfg = worldb.draw_config(rng, periodic=None)
+        cfg = worldb.draw_config(rng, periodic=None, contextstates_in_getmdib=rng.choice([None, None, False]))
         g = W.Gen(rng, cfg['mdib'], validate=True)
         n = rng.randint(5, 30 if tier == 'thorough' else 14)
         writers = rng.choice([1, 1, 1, 2])
